@@ -212,3 +212,44 @@ SPEC_ENTRY['theorems'] += [('C13_hyp_bounds_read',
   'hyp_cfg_conforms',
   'the monitor hyp_cfg_conform_b (kind 1362, evaluated on the implementation) holds of the model'),
  ('C13_hyp_nonvacuous', 'Proofs/HypPciProofs.v', 'hyp_cfg_nonvacuous', None)]
+
+
+# ---------------------------------------------------------------------------------------------------------------------
+# appended: multi-field reads over the x86-64 pKVM hypercall transport (Proofs/HypConfigProofs.v).  HypPciTransport does not override
+# Transport::read_consistent: the provided method runs with the transport's one-byte generation read; that is the PCI case of
+# Model/Config.v.  Imported LAST (it only adds names).
+PROPS_ENTRY['trusted_extra'] = [x.replace('; read_consistent over the hypercall transport is not separately exercised (it '
+ 'is the provided trait method; read_config_generation is C11_hyp_generation)', '') for x in PROPS_ENTRY['trusted_extra']] + [
+ 'x86-64 hypercall transport, multi-field reads (C13_hyp_read_consistent_*): the five drivers and transport.read_consistent run on the real '
+ 'HypPciTransport (directly and as SomeTransport::HypPci) with hyp_io_read served by the emulated device of scen/c13.rs: every single hypercall read '
+ '(generation byte at offset 21 of the common configuration region, device-specific region) is a slot of the update schedule; monitors 1311 / 1312 with '
+ 'the PCI-case closure (C13_hyp_read_is_pci_read, C13_user_mac: the value on one image does not depend on how the access is split); correspondence '
+ 'kind 1310 for closures of 1/2/4/8-byte fields']
+PROPS_ENTRY['assumptions'] += ['x86-64 hypercall transport, multi-field reads: the device bumps its one-byte config_generation with every configuration change and fewer than 256 '
+ 'changes fall inside one attempt of the loop (as for PCI); the device-specific region length is a multiple of four in the correspondence lines (the PCI '
+ 'transport counts words, the hypercall transport bytes: the model window is length / 4 words)']
+SPEC_ENTRY['imports'] = SPEC_ENTRY['imports'] + ['Proofs.HypConfigProofs']
+SPEC_ENTRY['theorems'] += [
+ ('C13_hyp_read_consistent_untorn',
+  'Proofs/HypConfigProofs.v',
+  'hyp_read_consistent_untorn',
+  'x86-64 hypercall transport (instance of C13_untorn for the one-byte generation at offset 21 of the common configuration region): for EVERY closure, '
+  'every device state and EVERY schedule of configuration updates placed before individual hypercall reads, with fewer than 256 updates inside each '
+  'attempt, the value read_consistent returns is the closure evaluated on ONE configuration image the device exposed, still exposed on return'),
+ ('C13_hyp_read_consistent_terminates', 'Proofs/HypConfigProofs.v', 'hyp_read_consistent_terminates',
+  'and the loop ends once the device stops changing its configuration: there is NO bound on the number of attempts'),
+ ('C13_hyp_generation_is_pci_generation',
+  'Proofs/HypConfigProofs.v',
+  'hyp_generation_is_pci_generation',
+  'read_config_generation of the hypercall transport IS the generation read of the PCI case of Model/Config.v: one byte at offset 21 of the common '
+  'configuration region, a value below 2^8'),
+ ('C13_hyp_read_is_pci_read',
+  'Proofs/HypConfigProofs.v',
+  'hyp_cfg_read_is_pci_read',
+  'read_config_space::<T> of the hypercall transport for size_of::<T>() in {1, 2, 4, 8} IS the PCI case\'s read on the window of length / 4 words: same '
+  'refusals, one access of the same width at the same offset, same value'),
+ ('C13_hyp_bounded_retry_refuted',
+  'Proofs/HypConfigProofs.v',
+  'bounded_retry_refuted',
+  'a loop that gives up after four attempts and returns the last value (seeded change C13-m19) returns, with one resize in each of four attempts, a '
+  'capacity the device never exposed (low half of image 4, high half of image 5): the snapshot monitor 1312 is false on it; the real loop returns image 5')]
